@@ -19,7 +19,7 @@ PROG_W = [[(0, 1000), (0, 1001), (0, 1002)]]  # one task, three sends, for seque
 # budget vectors: an execution is explored iff its (r, p, f) deviation counts fit inside one of them
 QUICK_B = [{"r": 1, "f": 1}, {"p": 1, "f": 1}, {"r": 1, "p": 1}, {"r": 2}, {"f": 2}]
 THOROUGH_SMALL = [{"r": 1, "p": 1, "f": 1}, {"r": 1, "f": 2}, {"r": 2, "f": 1}, {"p": 2}, {"r": 2, "p": 1}]
-THOROUGH_B = [{"r": 1, "p": 1, "f": 1}, {"r": 2, "f": 1}, {"f": 2}, {"r": 2, "p": 1}]
+THOROUGH_B = QUICK_B + [{"r": 2, "f": 1}, {"r": 1, "f": 2}]
 
 
 def scenarios(ctx):
